@@ -97,3 +97,15 @@ func SV_C02_deleg_reinvest() {
 	raw, signers := svBuildDelegReinvest(e)
 	e.step(raw, signers, true).goalsC02(nil)
 }
+
+// SV_C02_ons: the seven domain-name kinds.
+//
+// sv:bounds as SV_C20_ons_step (registry with a.ol / x.a.ol, kind a choice, actor any of 2 parties), amounts any integer in {OLT, unregistered}
+// sv:goal per currency the ledger total does not increase; no stored amount is negative
+func SV_C02_ons() {
+	svCurrencyLimit = 2
+	pre := &svDomainPre{}
+	e := svNewEnv(2, 20, svPreONS(pre))
+	raw, signers := svBuildONS(e, sv.Choice("kind", 7))
+	e.step(raw, signers, true).goalsC02(nil)
+}
